@@ -92,6 +92,14 @@ CHECKS = {
             "combinations of chunk spectra, exact subsample sizes, S/pi/Watterson/Tajima D/Fst/theta_L vs textbook formulas from the "
             "genotype matrix, pi invariant under projection.",
             "missing data expressed as ./. only; positions on more than one line are not judged under subsampling", "DESIGN.md §2 C13"),
+    "C15": ("metamorphic/differential monitors over every library model exposing __param_names__: well-formedness post-conditions, a table of ~110 nesting relations (both sides real executions), label-swap ladders, and a parameter-influence monitor",
+            "All ~105 spectrum-returning models of Demographics1D/2D/3D, PortikModels and DFE.DemogSelModels with random parameters in the "
+            "documented bounds: finite, non-negative, right shape, tagged for extrapolation, rejects a parameter vector one longer or one "
+            "shorter, every named parameter influences the result (three documented exceptions); 110 nesting relations at zero "
+            "migration / zero-length epoch / equal rates / zero or equal selection compared to 1e-10; symmetric models equivariant under "
+            "label swap with an error that vanishes with the time step (three-rung ladder).",
+            "nesting table written from docstrings (vf/props/c15_table.py); non-negativity judged on grids >= 28 points (coarser "
+            "grids give small negative entries with strong migration on the unchanged tree)", "DESIGN.md §2 C15"),
     "C17": ("differential monitor at Cache1D/Cache2D integrate*, mixture* and PDFs against a re-implementation of the documented quadrature (O-dfe); schedule/fault workloads on the real constructors with bitwise comparison and exactly-once event logs",
             "Caches are built by the real constructors from synthetic demo_sel_func's: integrate / integrate_point_pos (cached, uncached, "
             "repeated with other theta) / 2-D point masses with the documented rho weights / mixtures / Vourlaki_mixture against "
